@@ -70,7 +70,9 @@ def gen_op(rng):
         for _ in range(h):
             w = rng.choice([0, 1, 7, 8, 9, 10, 17, 130])
             rows.append([rng.choice([rng.randrange(16), 16]) for _ in range(w)])
-        return ('setsprite', idv, rng.choice([0, 0, 1, 7, 8]), rng.choice([0, 0, 1, 7, 8]), rows)
+        # offsets inside the tile, exactly one tile, and beyond (a start past the right / bottom edge of the sheet is clipped away entirely)
+        off = lambda: rng.choice([0, 0, 1, 7, 8, 9, 10, 16, 17, 100, 127, 128, 129])  # noqa: E731
+        return ('setsprite', idv, off(), off(), rows)
     if k == 4:
         return ('getcell', rng.randrange(128), edge(63))
     if k in (5, 6):
